@@ -421,15 +421,77 @@ def ob_set_merge(typ, acc):
     return verify(body)
 
 
+@obligation("set/merge_all_results_after_appending_variations", params=[{"typ": t} for t in ("SUM", "RATIO", "CHOICE")],
+            desc="history on one SimulationResults: results for two parameter variations are appended under one name, then a single-valued "
+                 "set is merged in with merge_all_results: the repetition is accumulated into the LAST stored result (the variation being "
+                 "simulated - this is how the runner uses it), the earlier variation's result and the operand are unchanged; then a third "
+                 "variation is appended and merged likewise")
+def ob_set_merge_variations(typ):
+    def body(c, it):
+        import pyphysim.simulations.results as r
+        acc = False
+        A = it.call(r.SimulationResults, [])
+        first = _havoc(c, it, _new(it, typ, acc, "x"), typ, "V1", 1)
+        second = _havoc(c, it, _new(it, typ, acc, "x"), typ, "V2", 1)
+        it.call(it.getattr(A, "append_result"), [first])
+        it.call(it.getattr(A, "append_result"), [second])
+        B = it.call(r.SimulationResults, [])
+        rb = _havoc(c, it, _new(it, typ, acc, "x"), typ, "B", 1)
+        it.call(it.getattr(B, "add_result"), [rb])
+        s1, s2, sb = _snap(first), _snap(second), _snap(rb)
+        it.call(it.getattr(A, "merge_all_results"), [B])
+        lst = it.call(it.getattr(A, "__getitem__"), ["x"])
+        goals = [Goal("still two results under the name", len(lst) == 2)]
+        if len(lst) != 2:
+            return goals
+        goals.append(Goal("the last stored result accumulated the operand", sym.SBool(_eq(_snap(lst[-1]), _plus_view(s2, sb, typ, acc)))))
+        goals.append(Goal("the earlier variation is unchanged", sym.SBool(_eq(_snap(lst[0]), s1))))
+        goals.append(Goal("operand unchanged", sym.SBool(_eq(_snap(rb), sb))))
+        third = _havoc(c, it, _new(it, typ, acc, "x"), typ, "V3", 1)
+        s3 = _snap(third)
+        it.call(it.getattr(A, "append_result"), [third])
+        it.call(it.getattr(A, "merge_all_results"), [B])
+        lst = it.call(it.getattr(A, "__getitem__"), ["x"])
+        goals.append(Goal("after a third variation: three results", len(lst) == 3))
+        if len(lst) == 3:
+            goals.append(Goal("third variation accumulated the operand", sym.SBool(_eq(_snap(lst[2]), _plus_view(s3, sb, typ, acc)))))
+            goals.append(Goal("first and second untouched by the second merge",
+                              sym.SBool(z3.And(_eq(_snap(lst[0]), s1), _eq(_snap(lst[1]), _plus_view(s2, sb, typ, acc))))))
+        return goals
+
+    def replay(mv):
+        from pyphysim.simulations.results import Result, SimulationResults
+        try:
+            A = SimulationResults()
+            for base in (10, 20):
+                x = Result("x", Result.SUMTYPE)
+                x.update(base)
+                A.append_result(x)
+            B = SimulationResults()
+            y = Result("x", Result.SUMTYPE)
+            y.update(5)
+            B.add_result(y)
+            A.merge_all_results(B)
+            got = [(q.get_result(), q.num_updates) for q in A["x"]]
+            want = [(10, 1), (25, 2)]
+            return {"confirmed": got != want, "history": "append x=10, append x=20, merge_all_results({x: 5})",
+                    "(value, num_updates) per stored result": got, "expected": want}
+        except Exception as e:
+            return {"confirmed": True, "observed": "raised %r" % (e,)}
+    return verify(body, replay=replay)
+
+
 @obligation("set/combine_overlapping_grids_symbolic_values", params=[{"typ": t, "la": la, "lb": lb} for t, la, lb in
-                                                                    (("SUM", 2, 2), ("RATIO", 2, 1), ("CHOICE", 1, 2), ("SUM", 3, 2))],
-            timeout=200,
+                                                                    (("SUM", 2, 2), ("RATIO", 2, 1), ("CHOICE", 1, 2), ("SUM", 3, 2))]
+            + [{"typ": "SUM", "la": 2, "lb": 2, "order": "any"}, {"typ": "RATIO", "la": 3, "lb": 1, "order": "any"}],
+            timeout=300,
             desc="combine_simulation_results(S1, S2) symbolically executed (combine_simulation_parameters, np.union1d natively on the symbolic "
                  "values - one path per ordering/coincidence pattern -, get_unpacked_params_list, get_pack_indexes incl. its eval'd index "
-                 "expression, Result.merge) for grids of ARBITRARY ascending real values and results in arbitrary states: the union grid is "
+                 "expression, Result.merge) for grids of ARBITRARY ascending real values (order=any: pairwise distinct values stored in "
+                 "ANY order, e.g. SNR = [10, 0, 5], both operands possibly on the same grid) and results in arbitrary states: the union grid is "
                  "the ascending duplicate-free union; each union point holds exactly empty + view of S1's result for that value (if S1 has "
                  "it) + S2's (if S2 has it); operands unchanged")
-def ob_combine_symbolic(typ, la, lb):
+def ob_combine_symbolic(typ, la, lb, order="asc"):
     def body(c, it):
         import pyphysim.simulations.results as r
         from pyphysim.simulations.parameters import SimulationParameters
@@ -438,7 +500,11 @@ def ob_combine_symbolic(typ, la, lb):
         def mk(tag, n):
             vals = [c.var("%s%d" % (tag, i), "real") for i in range(n)]
             for i in range(n - 1):
-                c.assume(vals[i] < vals[i + 1])
+                if order == "asc":
+                    c.assume(vals[i] < vals[i + 1])
+                else:
+                    for j in range(i + 1, n):
+                        c.assume(vals[i] != vals[j])
             arr = np.empty(n, dtype=object)
             for i, v in enumerate(vals):
                 arr[i] = v
@@ -489,8 +555,8 @@ def ob_combine_symbolic(typ, la, lb):
         from pyphysim.simulations.parameters import SimulationParameters
         try:
             g1, g2 = [float(x) for x in mv["grid1"]], [float(x) for x in mv["grid2"]]
-            if len(set(g1)) != len(g1) or len(set(g2)) != len(g2) or sorted(g1) != g1 or sorted(g2) != g2:
-                return {"confirmed": False, "note": "model grid not strictly ascending in binary64", "grid1": g1, "grid2": g2}
+            if len(set(g1)) != len(g1) or len(set(g2)) != len(g2) or (order == "asc" and (sorted(g1) != g1 or sorted(g2) != g2)):
+                return {"confirmed": False, "note": "model grid not in the domain in binary64", "grid1": g1, "grid2": g2}
 
             def build(g, base):
                 p = SimulationParameters.create({"snr": np.array(g), "fixed": 7})
@@ -523,7 +589,7 @@ def ob_combine_symbolic(typ, la, lb):
                     "expected_union_grid": want_grid, "(value, num_updates) per union point": got, "expected": want}
         except Exception as e:
             return {"confirmed": False, "error": repr(e)}
-    return verify(body, max_paths=150, replay=replay)
+    return verify(body, max_paths=150 if order == "asc" else 600, replay=replay)
 
 
 # ------------------------------------------------------------------ bounded / native
@@ -639,7 +705,7 @@ def ob_combine():
     def gen():
         for i in range(60 if quick() else 600):
             yield {"seed": int(r.randint(1 << 30)), "typ": ["SUM", "RATIO", "MISC", "CHOICE"][i % 4], "two": bool((i // 4) % 2),
-                   "mixed": bool((i // 8) % 2), "scale": [1.0, 1e-9, 1.0, 1e12][(i // 3) % 4]}
+                   "mixed": bool((i // 8) % 2), "scale": [1.0, 1e-9, 1.0, 1e12][(i // 3) % 4], "shuffle": (i // 5) % 3}
 
     def build(grid, grid2, typ, rr, tag):
         d = {"SNR": np.array(grid), "fixed": 7}
@@ -688,6 +754,11 @@ def ob_combine():
         if case.get("scale", 1.0) != 1.0:       # tiny (noise powers) and huge grids: values are matched exactly, never approximately
             g1 = [float(x) * case["scale"] for x in g1]
             g2 = [float(x) * case["scale"] for x in g2]
+        if case.get("shuffle") == 1:          # values stored in an order that is not ascending (e.g. SNR = [10, 0, 5])
+            g1, g2 = list(rr.permutation(g1)), list(rr.permutation(g2))
+        elif case.get("shuffle") == 2:        # both operands obtained for the SAME non-ascending grid
+            g1 = list(rr.permutation(g1))
+            g2 = list(g1)
         n1 = n2 = None
         if case["two"]:
             n1 = sorted(set(rr.randint(1, 4, size=rr.randint(1, 3)).tolist()))
